@@ -228,3 +228,66 @@ Proof.
   intros H1 H2 H. apply text_roundtrip. rewrite forallb_forall in *. intros v Hv.
   apply text_ok_viol_text_ok; auto.
 Qed.
+
+(* ---------- every vector (mixed text flags included) ---------- *)
+Lemma rsplit_cons c x s :
+  rsplit c (String x s) =
+  match rsplit c s with
+  | Some (u, w) => Some (String x u, w)
+  | None => if Ascii.eqb x c then Some (EmptyString, s) else None
+  end.
+Proof. reflexivity. Qed.
+
+Lemma rsplit_escape p :
+  rsplit ":"%char (escape p) =
+  match rsplit ":"%char p with Some (a, d) => Some (escape a, escape d) | None => None end.
+Proof.
+  induction p as [|a r IH]; [reflexivity|]. cbn [escape]. rewrite (rsplit_cons ":"%char a r).
+  destruct (Ascii.eqb_spec a nl) as [->|Hn].
+  - rewrite !rsplit_cons, IH. destruct (rsplit ":"%char r) as [[u w]|]; reflexivity.
+  - destruct (Ascii.eqb_spec a "\"%char) as [->|Hb].
+    + rewrite !rsplit_cons, IH. destruct (rsplit ":"%char r) as [[u w]|]; reflexivity.
+    + rewrite rsplit_cons, IH. destruct (rsplit ":"%char r) as [[u w]|].
+      * cbn [escape]. destruct (Ascii.eqb_spec a nl); [contradiction|]. destruct (Ascii.eqb_spec a "\"%char); [contradiction|reflexivity].
+      * destruct (Ascii.eqb a ":"%char); reflexivity.
+Qed.
+
+Lemma only_digits_escape d : only_digits (escape d) = only_digits d.
+Proof.
+  induction d as [|a r IH]; [reflexivity|]. cbn [escape].
+  destruct (Ascii.eqb_spec a nl) as [->|Hn]; [reflexivity|].
+  destruct (Ascii.eqb_spec a "\"%char) as [->|Hb]; [reflexivity|].
+  cbn [only_digits]. now rewrite IH.
+Qed.
+
+Lemma all_digits_escape d : all_digits (escape d) = all_digits d.
+Proof.
+  destruct d as [|a r]; [reflexivity|]. unfold all_digits at 2. rewrite <- only_digits_escape.
+  cbn [escape]. destruct (Ascii.eqb a nl); [reflexivity|]. destruct (Ascii.eqb a "\"%char); reflexivity.
+Qed.
+
+Lemma path_tail_ok_escape p : path_tail_ok (escape p) = path_tail_ok p.
+Proof.
+  unfold path_tail_ok. rewrite rsplit_escape. destruct (rsplit ":"%char p) as [[a d]|]; [|reflexivity].
+  now rewrite all_digits_escape.
+Qed.
+
+Lemma path_tail_ok_tesc q p : path_tail_ok (tesc q p) = path_tail_ok p.
+Proof. unfold tesc. destruct (q_text_raw_newline q); [reflexivity|apply path_tail_ok_escape]. Qed.
+
+Lemma text_ok_any q v : text_ok q v = true -> viol_text_ok q v = true.
+Proof.
+  unfold text_ok, viol_text_ok, esc_ok, loc_ok, F. rewrite path_tail_ok_tesc. intros H.
+  apply andb_true_iff in H as [H Hl]. apply andb_true_iff in H as [Hr He]. rewrite Hr, He. cbn [andb].
+  destruct (q_text_omit_zero q); [|reflexivity].
+  apply andb_true_iff in Hl as [Ha Hb]. now rewrite Ha, Hb.
+Qed.
+
+(* the text round trip for EVERY quirk vector: whatever combination of the two layout choices the renderer makes, stdout
+   decodes to the violations on the inputs text_ok admits for that combination (all inputs with identifier-like rule ids
+   when both flags are off) *)
+Theorem text_roundtrip_any q vs :
+  forallb (text_ok q) vs = true -> parse_text q (text_output q vs) = Some (map san_core vs).
+Proof.
+  intros H. apply text_roundtrip. rewrite forallb_forall in *. intros v Hv. now apply text_ok_any, H.
+Qed.
